@@ -402,6 +402,8 @@ def counters(ctx, rep):
         rep.require(truth is not None, "CancelOnShutdownExecutor.shutdown: the result of cancel() is not tested")
         rep.ob("R-COUNTER", "CancelOnShutdownExecutor.shutdown: SHUTDOWN_CANCEL iff cancel succeeded [%s]" % truth, len(sc) == (1 if truth else 0), "cancel() %s but SHUTDOWN_CANCEL inc x%d" % (truth, len(sc)), where_of(sh), trace_of(p))
     rep.require(seen >= 2, "CancelOnShutdownExecutor.shutdown: cancel loop not found")
+    from .c10 import discard_order_rule
+    discard_order_rule(ctx, rep, "R-COUNTER")
     # POLL_TOTAL / POLL_ERROR: on the poll worker's paths, per call of the poll function
     pex = prog.cls("PollExecutor")
     pl = roles.Layer(ctx, pex)
